@@ -1,1 +1,2303 @@
-fn main() { vcommon::hello(); }
+//! C14 — "The transaction pool always holds a jointly valid, fee-paying, mineable set".
+//!
+//! Runtime monitor: a real `Chain` and a real `TransactionPool` wired exactly as in
+//! `servers/src/grin/server.rs` (real `PoolToChainAdapter`, real `PoolToNetAdapter`
+//! over a real, empty `p2p::Peers`, real `ChainToPoolAndNetAdapter` as the chain's
+//! adapter) are driven by seeded random operation sequences. After EVERY operation
+//! the invariants I1..I4 are re-evaluated from scratch (reference ledger + the real
+//! chain), I5 is evaluated by dry-run after a fraction of the operations and by
+//! really mining a block from the pool in the `mine` operations.
+
+use chrono::Duration;
+use grin_chain::{Chain, Options};
+use grin_core::core::hash::{Hash, Hashed};
+use grin_core::core::transaction::{self, FeeFields};
+use grin_core::core::{
+	Block, KernelFeatures, Output, OutputFeatures, Transaction, TxKernel, Weighting,
+};
+use grin_core::global;
+use grin_core::pow::Difficulty;
+use grin_p2p::store::PeerStore;
+use grin_p2p::{DummyAdapter, P2PConfig, Peers};
+use grin_pool::{DandelionConfig, PoolConfig, TransactionPool, TxSource};
+use grin_servers::common::adapters::{
+	ChainToPoolAndNetAdapter, DandelionAdapter, PoolToChainAdapter, PoolToNetAdapter,
+};
+use grin_util::secp::pedersen::Commitment;
+use grin_util::RwLock;
+use serde_json::{json, Value};
+use std::collections::{HashMap, HashSet};
+use std::sync::atomic::{AtomicU64, Ordering};
+use std::sync::Arc;
+use std::time::{Duration as StdDuration, Instant};
+use vcommon::ctx::{Run, Scratch};
+use vcommon::ledger::{inputs_vec, RefLedger, RefState};
+use vcommon::monitor::catch;
+use vcommon::prng::Prng;
+use vcommon::world::{
+	init_globals, init_thread, open_chain_with, skip_pow_proof, Coin, PowMode, World,
+};
+
+type ServerTxPool = Arc<RwLock<TransactionPool<PoolToChainAdapter, PoolToNetAdapter>>>;
+
+const INPUT_W: u64 = 1;
+const OUTPUT_W: u64 = 21;
+const KERNEL_W: u64 = 3;
+/// Test-chain block weight limit (AutomatedTesting), from the definition in global.rs.
+const MAX_BLOCK_W: u64 = 250;
+/// Max tx weight = block weight less one coinbase (output + kernel).
+const MAX_TX_W: u64 = MAX_BLOCK_W - OUTPUT_W - KERNEL_W;
+
+const KINDS: &[&str] = &[
+	"valid",
+	"conflict",
+	"dependent",
+	"chain3",
+	"duplicate",
+	"agg_pooled_new",
+	"agg_two_pooled",
+	"agg_two_new",
+	"agg_low_remainder",
+	"low_fee",
+	"overweight",
+	"invalid",
+	"immature",
+	"stem_resubmit",
+	"fluff",
+	"expire",
+	"mine",
+	"foreign_block",
+	"reorg",
+	"reorg_lower",
+];
+
+#[derive(Clone, Copy, PartialEq, Debug)]
+enum Label {
+	/// should be acceptable unless pool full / conflicting (only counted)
+	Valid,
+	/// must be refused (I4)
+	Refuse(&'static str),
+	/// standalone fine but not mineable in the next block (maturity / lock height)
+	Unmineable,
+	/// no expectation
+	Free,
+}
+
+/// Own weight computation, from the definition.
+fn weight_iok(i: usize, o: usize, k: usize) -> u64 {
+	i as u64 * INPUT_W + o as u64 * OUTPUT_W + k as u64 * KERNEL_W
+}
+
+fn tx_weight(tx: &Transaction) -> u64 {
+	weight_iok(tx.inputs().len(), tx.outputs().len(), tx.kernels().len())
+}
+
+/// (sum of fees, max fee shift) decoded from the raw fee fields of the kernels.
+fn tx_fee_shift(tx: &Transaction) -> (u64, u32) {
+	let mut fee = 0u64;
+	let mut shift = 0u32;
+	for k in tx.kernels() {
+		let ff: Option<FeeFields> = match k.features {
+			KernelFeatures::Plain { fee } => Some(fee),
+			KernelFeatures::HeightLocked { fee, .. } => Some(fee),
+			KernelFeatures::NoRecentDuplicate { fee, .. } => Some(fee),
+			KernelFeatures::Coinbase => None,
+		};
+		if let Some(ff) = ff {
+			let raw: u64 = ff.into();
+			fee = fee.saturating_add(raw & ((1u64 << 40) - 1));
+			shift = shift.max(((raw >> 40) & 0xf) as u32);
+		}
+	}
+	(fee, shift)
+}
+
+fn tx_lock_height(tx: &Transaction) -> u64 {
+	tx.kernels()
+		.iter()
+		.filter_map(|k| match k.features {
+			KernelFeatures::HeightLocked { lock_height, .. } => Some(lock_height),
+			_ => None,
+		})
+		.max()
+		.unwrap_or(0)
+}
+
+/// Short, stable error class: the first two capitalised identifiers of the Debug form.
+fn eclass<E: std::fmt::Debug>(e: &E) -> String {
+	let s = format!("{:?}", e);
+	let ids: Vec<&str> = s
+		.split(|c: char| !(c.is_alphanumeric() || c == '_'))
+		.filter(|t| t.chars().next().map(|c| c.is_ascii_uppercase()).unwrap_or(false))
+		.take(2)
+		.collect();
+	if ids.is_empty() {
+		"Err".to_string()
+	} else {
+		ids.join(":")
+	}
+}
+
+fn short(c: &Commitment) -> String {
+	c.0[..6].iter().map(|b| format!("{:02x}", b)).collect()
+}
+
+fn tx_summary(tx: &Transaction) -> Value {
+	let (fee, shift) = tx_fee_shift(tx);
+	json!({
+		"hash": format!("{}", tx.hash()),
+		"inputs": inputs_vec(&tx.inputs()).iter().map(|(c, _)| short(c)).collect::<Vec<_>>(),
+		"outputs": tx.outputs().iter().map(|o| short(&o.commitment())).collect::<Vec<_>>(),
+		"kernels": tx.kernels().len(),
+		"fee": fee, "fee_shift": shift, "weight": tx_weight(tx),
+		"lock_height": tx_lock_height(tx),
+	})
+}
+
+struct View {
+	st: Arc<RefState>,
+	next_h: u64,
+	txpool: Vec<Transaction>,
+	stempool: Vec<Transaction>,
+	spent: HashSet<Commitment>,
+}
+
+struct Submission {
+	kind: &'static str,
+	tx: Transaction,
+	/// the transaction the pool would actually admit (after de-aggregation)
+	eff: Transaction,
+	label: Label,
+	stem: bool,
+	src: TxSource,
+	desc: String,
+}
+
+struct Shared {
+	deadline: Instant,
+	next_seq: AtomicU64,
+	max_seqs: u64,
+	small: bool,
+}
+
+struct Harness<'a> {
+	run: &'a Run,
+	shared: &'a Shared,
+	seq: u64,
+	profile: u64,
+	w: World,
+	prng: Prng,
+	ledger: RefLedger,
+	chain: Arc<Chain>,
+	pool: ServerTxPool,
+	net: Arc<PoolToNetAdapter>,
+	_peers: Arc<Peers>,
+	cfg: PoolConfig,
+	base: u64,
+	base_opts: Options,
+	coins: Vec<Coin>,
+	coin_idx: HashMap<Commitment, usize>,
+	reserved: HashSet<Commitment>,
+	next_key: u32,
+	setup_height: u64,
+	block_txs: HashMap<Hash, Vec<Transaction>>,
+	trace: Vec<String>,
+	prev_kind: &'static str,
+	cur_kind: &'static str,
+	/// class of the operation just executed (for I1/I3 "after=" attribution)
+	op_class: String,
+	broken_i1: bool,
+	broken_i3: bool,
+	known_entries: HashSet<Hash>,
+	overweight: Option<(Transaction, Coin)>,
+	dummy_cb: Option<(Output, TxKernel)>,
+	spare_sig_kernel: Option<TxKernel>,
+	fill_remaining: usize,
+	fluff_epoch: bool,
+	force_mine: bool,
+	forced_mines: u32,
+	n_ops: usize,
+	stop: bool,
+}
+
+impl<'a> Harness<'a> {
+	fn new(run: &'a Run, shared: &'a Shared, seq: u64, dir: &str) -> Result<Harness<'a>, String> {
+		let mut prng = Prng::new(run.seed ^ seq.wrapping_mul(0x9E37_79B9_7F4A_7C15) ^ 0xC14);
+		let profile = seq % 6;
+		let w = World::new(run.seed.wrapping_mul(31).wrapping_add(seq));
+		let (genesis, gcoin) = w.genesis();
+
+		// accept fee base: thread-local, constant within a sequence
+		let base = *prng.pick(&[500_000u64, 500_000, 500_000, 1_000, 7]);
+		global::set_local_accept_fee_base(base);
+
+		let max_pool_size = match profile {
+			1 => 8,
+			2 => 9,
+			3 => 12,
+			5 => 50,
+			_ => 10,
+		};
+		let cfg = PoolConfig {
+			accept_fee_base: base,
+			reorg_cache_period: 30,
+			max_pool_size,
+			max_stempool_size: if profile == 4 { 6 } else { max_pool_size },
+			mineable_max_weight: if profile == 5 {
+				*prng.pick(&[60u64, 100, 150, 250])
+			} else {
+				*prng.pick(&[250u64, 250, 40_000, 150])
+			},
+		};
+
+		// --- wiring as in servers/src/grin/server.rs
+		let pool_adapter = Arc::new(PoolToChainAdapter::new());
+		let dcfg = DandelionConfig {
+			epoch_secs: 600,
+			embargo_secs: 180,
+			aggregation_secs: 30,
+			stem_probability: 0, // next_epoch() => deterministic "fluff" epoch
+			always_stem_our_txs: true,
+		};
+		let net = Arc::new(PoolToNetAdapter::new(dcfg));
+		let pool: ServerTxPool = Arc::new(RwLock::new(TransactionPool::new(
+			cfg.clone(),
+			pool_adapter.clone(),
+			net.clone(),
+		)));
+		let chain_adapter = Arc::new(ChainToPoolAndNetAdapter::new(pool.clone(), vec![]));
+		let chain = Arc::new(open_chain_with(
+			&format!("{}/chain", dir),
+			&genesis,
+			chain_adapter.clone(),
+			false,
+		)?);
+		pool_adapter.set_chain(chain.clone());
+		let store = PeerStore::new(&format!("{}/peers", dir)).map_err(|e| format!("PeerStore: {:?}", e))?;
+		let peers = Arc::new(Peers::new(store, Arc::new(DummyAdapter {}), P2PConfig::default()));
+		chain_adapter.init(peers.clone());
+		net.init(peers.clone());
+
+		let ledger = RefLedger::new(&genesis);
+		let base_opts = if prng.chance(1, 3) {
+			Options::SYNC
+		} else {
+			Options::NONE
+		};
+		let mut h = Harness {
+			run,
+			shared,
+			seq,
+			profile,
+			w,
+			prng,
+			ledger,
+			chain,
+			pool,
+			net,
+			_peers: peers,
+			cfg,
+			base,
+			base_opts,
+			coins: vec![],
+			coin_idx: HashMap::new(),
+			reserved: HashSet::new(),
+			next_key: 1,
+			setup_height: 0,
+			block_txs: HashMap::new(),
+			trace: vec![],
+			prev_kind: "start",
+			cur_kind: "start",
+			op_class: "setup".into(),
+			broken_i1: false,
+			broken_i3: false,
+			known_entries: HashSet::new(),
+			overweight: None,
+			dummy_cb: None,
+			spare_sig_kernel: None,
+			fill_remaining: 0,
+			fluff_epoch: false,
+			force_mine: false,
+			forced_mines: 0,
+			n_ops: 0,
+			stop: false,
+		};
+		h.add_coin(gcoin);
+		h.setup_chain()?;
+		Ok(h)
+	}
+
+	fn add_coin(&mut self, c: Coin) {
+		if !self.coin_idx.contains_key(&c.commit) {
+			self.coin_idx.insert(c.commit, self.coins.len());
+			self.coins.push(c);
+		}
+	}
+
+	fn coin(&self, c: &Commitment) -> Option<Coin> {
+		self.coin_idx.get(c).map(|&i| self.coins[i].clone())
+	}
+
+	fn head_hash(&self) -> Hash {
+		self.chain.head().expect("head").last_block_h
+	}
+
+	/// Initial chain: empty blocks for coinbases, then blocks splitting matured
+	/// coinbases into 10 plain coins each.
+	fn setup_chain(&mut self) -> Result<(), String> {
+		let n_cb = 5 + self.prng.below(3);
+		let n_split = if self.shared.small {
+			2
+		} else {
+			match self.profile {
+				1 | 2 => 6,
+				_ => 5,
+			}
+		};
+		let mut tip = self.ledger.genesis_hash();
+		let mut cb_coins: Vec<Coin> = vec![self.coins[0].clone()];
+		for i in 0..(n_cb + n_split) {
+			let mut txs = vec![];
+			if i >= n_cb {
+				let c = cb_coins[(i - n_cb) as usize].clone();
+				let total = c.value;
+				let fee = 1_000_000u64;
+				let each = (total - fee) / 10;
+				let mut outs = vec![];
+				let mut left = total - fee;
+				for j in 0..10 {
+					let v = if j == 9 { left } else { each };
+					left -= v;
+					outs.push((v, self.w.key(self.next_key)));
+					self.next_key += 1;
+				}
+				let ff = FeeFields::new(0, fee).unwrap();
+				let (tx, coins) =
+					self.w
+						.tx(&mut self.prng, &[c], &outs, KernelFeatures::Plain { fee: ff });
+				for c in coins {
+					self.add_coin(c);
+				}
+				txs.push(tx);
+			}
+			let k = self.w.key(self.next_key);
+			self.next_key += 1;
+			let d = 1000 + self.prng.below(500);
+			let b = self.ledger.make_block(
+				&self.w,
+				&mut self.prng,
+				&tip,
+				&txs,
+				&k,
+				PowMode::Skip { difficulty: d },
+				60,
+			)?;
+			let fees: u64 = txs.iter().map(|t| tx_fee_shift(t).0).sum();
+			let cb = self.w.coin(grin_core::consensus::reward(fees), &k, true);
+			cb_coins.push(cb.clone());
+			self.add_coin(cb);
+			tip = b.hash();
+			self.chain
+				.process_block(b, Options::SKIP_POW | Options::SYNC)
+				.map_err(|e| format!("setup block {}: {:?}", i + 1, e))?;
+		}
+		self.setup_height = n_cb + n_split;
+		if self.head_hash() != tip {
+			return Err("setup: head mismatch".into());
+		}
+		Ok(())
+	}
+
+	fn view(&mut self) -> View {
+		let head = self.head_hash();
+		let st = self.ledger.state_at(&head);
+		let (txpool, stempool) = {
+			let p = self.pool.read();
+			(p.txpool.all_transactions(), p.stempool.all_transactions())
+		};
+		let mut spent = HashSet::new();
+		for tx in txpool.iter().chain(stempool.iter()) {
+			for (c, _) in inputs_vec(&tx.inputs()) {
+				spent.insert(c);
+			}
+		}
+		View {
+			next_h: st.height + 1,
+			st,
+			txpool,
+			stempool,
+			spent,
+		}
+	}
+
+	/// Confirmed, mature, not spent by any pool entry, not reserved.
+	fn free_coins(&self, v: &View) -> Vec<Coin> {
+		let mat = global::coinbase_maturity();
+		self.coins
+			.iter()
+			.filter(|c| match v.st.utxo.get(&c.commit) {
+				Some(&i) => {
+					let o = &v.st.outs[i];
+					(o.features != OutputFeatures::Coinbase || v.next_h >= o.height + mat)
+						&& !v.spent.contains(&c.commit)
+						&& !self.reserved.contains(&c.commit)
+				}
+				None => false,
+			})
+			.cloned()
+			.collect()
+	}
+
+	/// Outputs of pool entries not spent by another pool entry (known openings).
+	fn pool_outputs(&self, v: &View, from_stem: bool) -> Vec<Coin> {
+		let src = if from_stem { &v.stempool } else { &v.txpool };
+		let mut r = vec![];
+		for tx in src {
+			for o in tx.outputs() {
+				let c = o.commitment();
+				if !v.spent.contains(&c) {
+					if let Some(coin) = self.coin(&c) {
+						r.push(coin);
+					}
+				}
+			}
+		}
+		r
+	}
+
+	/// Build a 1-kernel transaction. `imbalance` != 0 makes it unbalanced.
+	fn mk_tx(
+		&mut self,
+		inputs: &[Coin],
+		n_out: usize,
+		fee: u64,
+		shift: u64,
+		lock: Option<u64>,
+		imbalance: u64,
+	) -> Option<(Transaction, Vec<Coin>)> {
+		let total: u64 = inputs.iter().map(|c| c.value).sum();
+		if fee == 0 || total < fee + n_out as u64 + imbalance {
+			return None;
+		}
+		let ff = FeeFields::new(shift, fee).ok()?;
+		let rest = total - fee + imbalance;
+		let each = rest / n_out as u64;
+		let mut left = rest;
+		let mut outs = vec![];
+		for j in 0..n_out {
+			let v = if j + 1 == n_out { left } else { each };
+			left -= v;
+			outs.push((v, self.w.key(self.next_key)));
+			self.next_key += 1;
+		}
+		let features = match lock {
+			None => KernelFeatures::Plain { fee: ff },
+			Some(h) => KernelFeatures::HeightLocked {
+				fee: ff,
+				lock_height: h,
+			},
+		};
+		let (tx, coins) = self.w.tx(&mut self.prng, inputs, &outs, features);
+		if imbalance == 0 {
+			for c in &coins {
+				self.add_coin(c.clone());
+			}
+		}
+		if self.spare_sig_kernel.is_none() {
+			self.spare_sig_kernel = Some(tx.kernels()[0]);
+		}
+		Some((tx, coins))
+	}
+
+	fn min_fee(&self, n_in: usize, n_out: usize) -> u64 {
+		weight_iok(n_in, n_out, 1) * self.base
+	}
+
+	/// A fee satisfying the rule (sometimes exactly at the boundary), with varied
+	/// fee rates and fee shifts.
+	fn good_fee(&mut self, n_in: usize, n_out: usize, total: u64) -> (u64, u64) {
+		let min = self.min_fee(n_in, n_out);
+		let shift = if self.prng.chance(1, 5) {
+			self.prng.range(1, 3)
+		} else {
+			0
+		};
+		let mult = *self.prng.pick(&[1u64, 1, 1, 2, 2, 3, 5, 8]);
+		let extra = if self.prng.chance(1, 3) {
+			0
+		} else {
+			self.prng.below(min / 4 + 1)
+		};
+		let fee = ((min * mult) << shift) + extra;
+		if fee > total / 3 || fee >= (1u64 << 40) {
+			(min, 0)
+		} else {
+			(fee, shift)
+		}
+	}
+
+	fn replay(&self, detail: Value) -> Value {
+		let (tp, sp) = {
+			let p = self.pool.read();
+			(p.txpool.all_transactions(), p.stempool.all_transactions())
+		};
+		let head = self.chain.head().ok();
+		json!({
+			"seq": self.seq,
+			"op_index": self.n_ops,
+			"how": "re-run with the same --seed/--tier and `--only-seq <seq>`",
+			"pool_config": {"max_pool_size": self.cfg.max_pool_size, "max_stempool_size": self.cfg.max_stempool_size,
+				"mineable_max_weight": self.cfg.mineable_max_weight, "accept_fee_base": self.base},
+			"head_height": head.map(|h| h.height),
+			"trace": self.trace,
+			"txpool": tp.iter().map(tx_summary).collect::<Vec<_>>(),
+			"stempool": sp.iter().map(tx_summary).collect::<Vec<_>>(),
+			"detail": detail,
+		})
+	}
+
+	fn violation(&self, sig: &str, what: &str, detail: Value) {
+		self.run.count("violations_raised", 1);
+		self.run.violation(sig, what, self.replay(detail));
+	}
+
+	fn size_class(&self, n: usize) -> &'static str {
+		if n > self.cfg.max_pool_size {
+			"over"
+		} else if n == 0 {
+			"0"
+		} else if n <= 3 {
+			"1-3"
+		} else if n <= 7 {
+			"4-7"
+		} else {
+			"8+"
+		}
+	}
+
+	/// Joint validity of a set of transactions on top of the current head:
+	/// reference-ledger clauses first, then the real code (aggregate, validate,
+	/// Chain::validate_tx). Returns the first failing clause.
+	fn joint_check(&self, st: &RefState, txs: &[Transaction]) -> Option<(String, String)> {
+		if txs.is_empty() {
+			return None;
+		}
+		let mut created: HashSet<Commitment> = HashSet::new();
+		for tx in txs {
+			for o in tx.outputs() {
+				if !created.insert(o.commitment()) {
+					return Some(("ref_dup_output".into(), short(&o.commitment())));
+				}
+			}
+		}
+		let mut spent: HashSet<Commitment> = HashSet::new();
+		let mut order = vec![];
+		for tx in txs {
+			for (c, f) in inputs_vec(&tx.inputs()) {
+				if !spent.insert(c) {
+					return Some(("double_spend".into(), short(&c)));
+				}
+				order.push((c, f));
+			}
+		}
+		for (c, f) in &order {
+			match st.utxo.get(c) {
+				Some(&i) => {
+					if let Some(f) = f {
+						if *f != st.outs[i].features {
+							return Some(("input_features".into(), short(c)));
+						}
+					}
+				}
+				None => {
+					if !created.contains(c) {
+						return Some(("input_missing".into(), short(c)));
+					}
+				}
+			}
+		}
+		for tx in txs {
+			for o in tx.outputs() {
+				let c = o.commitment();
+				if st.utxo.contains_key(&c) && !spent.contains(&c) {
+					return Some(("output_dup_utxo".into(), short(&c)));
+				}
+			}
+		}
+		let agg = match transaction::aggregate(txs) {
+			Ok(a) => a,
+			Err(e) => return Some(("aggregate".into(), eclass(&e))),
+		};
+		if let Err(e) = agg.validate(Weighting::NoLimit) {
+			return Some(("validate".into(), eclass(&e)));
+		}
+		if let Err(e) = self.chain.validate_tx(&agg) {
+			return Some(("chain_validate_tx".into(), eclass(&e)));
+		}
+		None
+	}
+
+	/// I1, I2, I3 and the I4 state scan; I5 dry-run with probability 1/4.
+	fn check_invariants(&mut self) {
+		let v = self.view();
+		self.run.count("invariant_evaluations", 1);
+
+		// I1 / I2
+		match self.joint_check(&v.st, &v.txpool) {
+			Some((clause, err)) => {
+				if !self.broken_i1 {
+					self.broken_i1 = true;
+					let inv = if clause == "double_spend" { "I2" } else { "I1" };
+					let sig = format!("{};clause={};after={}", inv, clause, self.op_class);
+					self.violation(
+						&sig,
+						&format!(
+							"txpool is not jointly valid on the current head after op `{}`: {} ({})",
+							self.op_class, clause, err
+						),
+						json!({"clause": clause, "err": err}),
+					);
+				}
+			}
+			None => self.broken_i1 = false,
+		}
+		// I3 (only meaningful when I1 holds)
+		if !self.broken_i1 {
+			if v.stempool.is_empty() {
+				self.broken_i3 = false;
+			} else {
+				self.run.count("i3_evaluations_nonempty_stempool", 1);
+				let mut all = v.txpool.clone();
+				all.extend(v.stempool.iter().cloned());
+				match self.joint_check(&v.st, &all) {
+					Some((clause, err)) => {
+						if !self.broken_i3 {
+							self.broken_i3 = true;
+							let sig = format!("I3;clause={};after={}", clause, self.op_class);
+							self.violation(
+								&sig,
+								&format!(
+									"stempool + txpool not jointly valid after op `{}`: {} ({})",
+									self.op_class, clause, err
+								),
+								json!({"clause": clause, "err": err}),
+							);
+						}
+					}
+					None => self.broken_i3 = false,
+				}
+			}
+		}
+		// I4 state scan: every entry that appears in either pool satisfies the
+		// admission rules (checked once per distinct entry).
+		for (tx, which) in v
+			.txpool
+			.iter()
+			.map(|t| (t, "txpool"))
+			.chain(v.stempool.iter().map(|t| (t, "stempool")))
+		{
+			if self.known_entries.insert(tx.hash()) {
+				self.run.count("i4_entries_scanned", 1);
+				if let Some(clause) = self.admission_clause(tx) {
+					let sig = format!("I4;scan;clause={};pool={}", clause, which);
+					self.violation(
+						&sig,
+						&format!("{} holds an entry violating the admission rule `{}`", which, clause),
+						json!({"entry": tx_summary(tx)}),
+					);
+				}
+			}
+		}
+		// I5 dry run
+		if !self.stop && self.prng.chance(1, 4) {
+			self.mine(false);
+		}
+	}
+
+	/// Which admission rule does `tx` break (None = none)? From the definitions.
+	fn admission_clause(&self, tx: &Transaction) -> Option<&'static str> {
+		let (fee, shift) = tx_fee_shift(tx);
+		let w = tx_weight(tx);
+		if (fee >> shift) < w.saturating_mul(self.base) {
+			return Some("fee");
+		}
+		if w > MAX_TX_W {
+			return Some("weight");
+		}
+		if tx.validate(Weighting::AsTransaction).is_err() {
+			return Some("validate");
+		}
+		None
+	}
+
+	fn begin_op(&mut self, kind: &'static str, desc: String) {
+		self.n_ops += 1;
+		self.cur_kind = kind;
+		self.trace.push(format!("{}:{} {}", self.n_ops, kind, desc));
+		self.run.count(&format!("op.{}", kind), 1);
+	}
+
+	fn end_op(&mut self, class: &str, stem: bool, pre_size: usize, outcome: &str) {
+		self.op_class = class.to_string();
+		if let Some(l) = self.trace.last_mut() {
+			l.push_str(&format!(" => {}", outcome));
+		}
+		let sig = format!(
+			"{}>{};pool={};stem={};out={}",
+			self.prev_kind,
+			self.cur_kind,
+			self.size_class(pre_size),
+			stem as u8,
+			outcome
+		);
+		self.run.eval(&sig, true);
+		self.prev_kind = self.cur_kind;
+		self.check_invariants();
+	}
+
+	/// Submit through `TransactionPool::add_to_pool`, judge I4, account evictions.
+	fn submit(&mut self, s: Submission) {
+		self.begin_op(
+			s.kind,
+			format!(
+				"{} stem={} src={:?} label={:?} tx={}",
+				s.desc,
+				s.stem as u8,
+				s.src,
+				s.label,
+				tx_summary(&s.tx)
+			),
+		);
+		let header = match self.chain.head_header() {
+			Ok(h) => h,
+			Err(_) => {
+				self.stop = true;
+				return;
+			}
+		};
+		let (pre_tx, pre_stem): (Vec<Hash>, Vec<Hash>) = {
+			let p = self.pool.read();
+			(
+				p.txpool.entries.iter().map(|e| e.tx.hash()).collect(),
+				p.stempool.entries.iter().map(|e| e.tx.hash()).collect(),
+			)
+		};
+		let pre_size = pre_tx.len();
+		let over = pre_size > self.cfg.max_pool_size;
+		let pool = self.pool.clone();
+		let (tx, stem, src) = (s.tx.clone(), s.stem, s.src);
+		let res = catch(move || pool.write().add_to_pool(src, tx, stem, &header));
+		let res = match res {
+			Ok(r) => r,
+			Err(p) => {
+				let sig = format!("panic;op=add_to_pool;kind={};at={}", s.kind, p.location);
+				self.violation(
+					&sig,
+					&format!("add_to_pool panicked: {} at {}", p.message, p.location),
+					json!({"submitted": tx_summary(&s.tx)}),
+				);
+				self.stop = true;
+				return;
+			}
+		};
+		let (post_tx, post_stem): (Vec<Hash>, Vec<Hash>) = {
+			let p = self.pool.read();
+			(
+				p.txpool.entries.iter().map(|e| e.tx.hash()).collect(),
+				p.stempool.entries.iter().map(|e| e.tx.hash()).collect(),
+			)
+		};
+		let mut outcome;
+		let mut class = "submit".to_string();
+		match &res {
+			Ok(()) => {
+				outcome = "ok".to_string();
+				self.run.count("admitted", 1);
+				// evictions: txpool entries that disappeared, or the admitted tx itself gone
+				let gone = pre_tx.iter().filter(|h| !post_tx.contains(h)).count();
+				let eff_kernels = s.eff.kernels().to_vec();
+				let present = {
+					let p = self.pool.read();
+					p.txpool
+						.entries
+						.iter()
+						.chain(p.stempool.entries.iter())
+						.any(|e| e.tx.kernels() == &eff_kernels[..])
+				};
+				let self_evicted = !present && over && !s.stem;
+				if gone > 0 || self_evicted {
+					self.run.count("evictions", (gone + self_evicted as usize) as u64);
+					if gone > 0 {
+						self.run.count("evictions_of_other_tx", gone as u64);
+					}
+					outcome.push_str("+evict");
+					class = "submit+evict".into();
+				}
+				if post_stem.len() > pre_stem.len() {
+					self.run.count("admitted_to_stempool", 1);
+					outcome.push_str("+stem");
+				}
+				// I4: what was admitted must satisfy the admission rules
+				let clause = match self.admission_clause(&s.eff) {
+					Some(c) => Some(c.to_string()),
+					None => match s.label {
+						Label::Refuse(l) => Some(format!("label:{}", l)),
+						_ => None,
+					},
+				};
+				if let Some(clause) = clause {
+					let sig = format!(
+						"I4;clause={};capacity={};event=admitted",
+						clause,
+						if over { "over" } else { "under" }
+					);
+					self.violation(
+						&sig,
+						&format!(
+							"add_to_pool returned Ok for a transaction violating admission rule `{}` (label {:?}, txpool size before {} / max {}, still in pool afterwards: {})",
+							clause, s.label, pre_size, self.cfg.max_pool_size, present
+						),
+						json!({"submitted": tx_summary(&s.tx), "effective": tx_summary(&s.eff),
+							"retained_in_pool": present, "stem": s.stem}),
+					);
+				}
+				match s.label {
+					Label::Valid => self.run.count("valid_admitted", 1),
+					Label::Unmineable => self.run.count("unmineable_admitted", 1),
+					_ => {}
+				}
+			}
+			Err(e) => {
+				outcome = format!("err:{}", eclass(e));
+				match s.label {
+					Label::Refuse(l) => {
+						let group = if l.starts_with("invalid") { "invalid" } else { l };
+						self.run.count(&format!("refused.{}", group), 1);
+						self.run.count(&format!("refused_detail.{}.{}", l, eclass(e)), 1);
+					}
+					Label::Valid => {
+						self.run.count("valid_refused", 1);
+						self.run.count(&format!("valid_refused.{}", eclass(e)), 1);
+					}
+					Label::Unmineable => self.run.count("refused.unmineable", 1),
+					Label::Free => self.run.count(&format!("free_refused.{}", s.kind), 1),
+				}
+				// a refusal must leave the txpool unchanged
+				if pre_tx != post_tx {
+					self.run.count("refusal_changed_txpool", 1);
+				}
+			}
+		}
+		if self.n_ops % 37 == 5 {
+			self.run.sample(json!({"seq": self.seq, "op": s.kind, "desc": s.desc, "stem": s.stem,
+				"label": format!("{:?}", s.label), "tx": tx_summary(&s.tx), "pool_size_before": pre_size,
+				"outcome": outcome}));
+		}
+		let admitted_unmineable = res.is_ok() && s.label == Label::Unmineable;
+		self.end_op(&class, s.stem, pre_size, &outcome);
+		if admitted_unmineable && !self.stop {
+			// let the chain judge right away (I5)
+			self.op_mine();
+		}
+	}
+
+	fn rand_src(&mut self) -> TxSource {
+		if self.prng.chance(1, 4) {
+			TxSource::PushApi
+		} else {
+			TxSource::Broadcast
+		}
+	}
+
+	fn rand_stem(&mut self) -> bool {
+		let p = if self.profile == 4 { 50 } else { 25 };
+		self.prng.chance(p, 100)
+	}
+
+	/// A fresh, valid spend of one (or two) free confirmed coins.
+	fn gen_valid(&mut self, v: &View) -> Option<(Transaction, Vec<Coin>)> {
+		let free = self.free_coins(v);
+		if free.is_empty() {
+			self.run.count("skip.no_free_coin", 1);
+			return None;
+		}
+		let n_in = if free.len() > 12 && self.prng.chance(1, 6) { 2 } else { 1 };
+		let mut inputs = vec![];
+		let i = self.prng.usize_below(free.len());
+		inputs.push(free[i].clone());
+		if n_in == 2 {
+			let j = (i + 1 + self.prng.usize_below(free.len() - 1)) % free.len();
+			inputs.push(free[j].clone());
+		}
+		let n_out = if self.prng.chance(1, 3) { 2 } else { 1 };
+		let total: u64 = inputs.iter().map(|c| c.value).sum();
+		let (fee, shift) = self.good_fee(n_in, n_out, total);
+		self.mk_tx(&inputs, n_out, fee, shift, None, 0)
+	}
+
+	fn op_valid(&mut self, kind: &'static str) {
+		let v = self.view();
+		if let Some((tx, _)) = self.gen_valid(&v) {
+			let stem = self.rand_stem();
+			let src = self.rand_src();
+			self.submit(Submission {
+				kind,
+				eff: tx.clone(),
+				tx,
+				label: Label::Valid,
+				stem,
+				src,
+				desc: "fresh spend of confirmed coin".into(),
+			});
+		}
+	}
+
+	fn op_conflict(&mut self) {
+		let v = self.view();
+		let mut cands = vec![];
+		for tx in v.txpool.iter().chain(v.stempool.iter()) {
+			for (c, _) in inputs_vec(&tx.inputs()) {
+				if let Some(coin) = self.coin(&c) {
+					cands.push(coin);
+				}
+			}
+		}
+		if cands.is_empty() {
+			self.run.count("skip.no_conflict_target", 1);
+			return self.op_valid("valid");
+		}
+		let c = self.prng.pick(&cands).clone();
+		let n_out = 1;
+		let (fee, shift) = self.good_fee(1, n_out, c.value);
+		if let Some((tx, _)) = self.mk_tx(&[c], n_out, fee, shift, None, 0) {
+			let stem = self.rand_stem();
+			let src = self.rand_src();
+			self.submit(Submission {
+				kind: "conflict",
+				eff: tx.clone(),
+				tx,
+				label: Label::Free,
+				stem,
+				src,
+				desc: "double spend of an input of a pooled tx".into(),
+			});
+		}
+	}
+
+	/// Spend an output of a pooled transaction.
+	fn gen_dependent(&mut self, v: &View, stem: bool) -> Option<(Transaction, Label)> {
+		let from_stem = stem && !v.stempool.is_empty() && self.prng.chance(1, 2);
+		let mut outs = self.pool_outputs(v, from_stem);
+		let mut parent_in_stem = from_stem;
+		if outs.is_empty() {
+			outs = self.pool_outputs(v, !from_stem);
+			parent_in_stem = !from_stem;
+		}
+		if outs.is_empty() {
+			return None;
+		}
+		let c = self.prng.pick(&outs).clone();
+		let n_out = if self.prng.chance(1, 4) { 2 } else { 1 };
+		let (fee, shift) = self.good_fee(1, n_out, c.value);
+		let (tx, _) = self.mk_tx(&[c], n_out, fee, shift, None, 0)?;
+		// a txpool submission cannot see stempool parents: no expectation then
+		let label = if parent_in_stem && !stem {
+			Label::Free
+		} else {
+			Label::Valid
+		};
+		Some((tx, label))
+	}
+
+	fn op_dependent(&mut self, force_fluff: bool) {
+		let v = self.view();
+		let stem = !force_fluff && self.rand_stem();
+		match self.gen_dependent(&v, stem) {
+			Some((tx, label)) => {
+				let src = self.rand_src();
+				self.submit(Submission {
+					kind: "dependent",
+					eff: tx.clone(),
+					tx,
+					label,
+					stem,
+					src,
+					desc: "spend of an output of a pooled tx".into(),
+				});
+			}
+			None => {
+				self.run.count("skip.no_pool_output", 1);
+				self.op_valid("valid");
+			}
+		}
+	}
+
+	/// A -> B -> C with independently drawn fee rates, submitted in order (or,
+	/// sometimes, child first).
+	fn op_chain3(&mut self) {
+		let v = self.view();
+		let (a, a_outs) = match self.gen_valid(&v) {
+			Some(x) => x,
+			None => return,
+		};
+		let ca = a_outs[0].clone();
+		let (fb, sb) = self.good_fee(1, 1, ca.value);
+		let (b, b_outs) = match self.mk_tx(&[ca], 1, fb, sb, None, 0) {
+			Some(x) => x,
+			None => return,
+		};
+		let cb = b_outs[0].clone();
+		let (fc, sc) = self.good_fee(1, 1, cb.value);
+		let (c, _) = match self.mk_tx(&[cb], 1, fc, sc, None, 0) {
+			Some(x) => x,
+			None => return,
+		};
+		let stem_all = self.prng.chance(1, 6);
+		let reversed = self.prng.chance(1, 8);
+		let mut seq = vec![(a, "chain3 A"), (b, "chain3 B (spends A)"), (c, "chain3 C (spends B)")];
+		if reversed {
+			seq.reverse();
+		}
+		for (tx, d) in seq {
+			if self.stop {
+				return;
+			}
+			let src = self.rand_src();
+			self.submit(Submission {
+				kind: "chain3",
+				eff: tx.clone(),
+				tx,
+				label: if reversed { Label::Free } else { Label::Valid },
+				stem: stem_all,
+				src,
+				desc: format!("{}{}", d, if reversed { " [child first]" } else { "" }),
+			});
+		}
+	}
+
+	fn op_duplicate(&mut self) {
+		let v = self.view();
+		let mut cands: Vec<(Transaction, &'static str)> = vec![];
+		for t in &v.txpool {
+			cands.push((t.clone(), "exact duplicate of txpool entry"));
+		}
+		for t in &v.stempool {
+			cands.push((t.clone(), "exact duplicate of stempool entry"));
+		}
+		// a transaction already confirmed on the current chain
+		let head = self.head_hash();
+		if let Some(txs) = self.block_txs.get(&head) {
+			if let Some(t) = txs.first() {
+				cands.push((t.clone(), "replay of a tx confirmed in the head block"));
+			}
+		}
+		if cands.is_empty() {
+			self.run.count("skip.no_dup_target", 1);
+			return self.op_valid("valid");
+		}
+		let (tx, d) = self.prng.pick(&cands).clone();
+		let stem = self.prng.chance(1, 3);
+		let src = self.rand_src();
+		self.submit(Submission {
+			kind: "duplicate",
+			eff: tx.clone(),
+			tx,
+			label: Label::Free,
+			stem,
+			src,
+			desc: d.into(),
+		});
+	}
+
+	fn op_aggregate(&mut self, kind: &'static str) {
+		let v = self.view();
+		let src = self.rand_src();
+		match kind {
+			"agg_two_pooled" => {
+				if v.txpool.len() < 2 {
+					self.run.count("skip.agg_needs_two_pooled", 1);
+					return self.op_valid("valid");
+				}
+				let i = self.prng.usize_below(v.txpool.len());
+				let j = (i + 1 + self.prng.usize_below(v.txpool.len() - 1)) % v.txpool.len();
+				let agg = match transaction::aggregate(&[v.txpool[i].clone(), v.txpool[j].clone()]) {
+					Ok(a) => a,
+					Err(_) => return,
+				};
+				// de-aggregation leaves nothing: admitting that would be admitting an empty tx
+				self.submit(Submission {
+					kind,
+					tx: agg,
+					eff: Transaction::empty(),
+					label: Label::Refuse("invalid_empty_remainder"),
+					stem: false,
+					src,
+					desc: "aggregate of two txpool entries".into(),
+				});
+			}
+			"agg_two_new" => {
+				let (a, _) = match self.gen_valid(&v) {
+					Some(x) => x,
+					None => return,
+				};
+				// second one from a different coin: temporarily reserve a's inputs
+				let ins: Vec<Commitment> = inputs_vec(&a.inputs()).iter().map(|(c, _)| *c).collect();
+				for c in &ins {
+					self.reserved.insert(*c);
+				}
+				let b = self.gen_valid(&v);
+				for c in &ins {
+					self.reserved.remove(c);
+				}
+				let (b, _) = match b {
+					Some(x) => x,
+					None => return,
+				};
+				let agg = match transaction::aggregate(&[a, b]) {
+					Ok(a) => a,
+					Err(_) => return,
+				};
+				let (fee, shift) = tx_fee_shift(&agg);
+				let label = if (fee >> shift) >= tx_weight(&agg) * self.base {
+					Label::Valid
+				} else {
+					// different fee shifts can make the aggregate under-pay: must be refused then
+					Label::Refuse("low_fee")
+				};
+				let stem = self.rand_stem();
+				self.submit(Submission {
+					kind,
+					eff: agg.clone(),
+					tx: agg,
+					label,
+					stem,
+					src,
+					desc: "two-kernel aggregate of two fresh txs".into(),
+				});
+			}
+			_ => {
+				// agg_pooled_new / agg_low_remainder
+				if v.txpool.is_empty() {
+					self.run.count("skip.agg_needs_pooled", 1);
+					return self.op_valid("valid");
+				}
+				let a = self.prng.pick(&v.txpool).clone();
+				let low = kind == "agg_low_remainder";
+				let free = self.free_coins(&v);
+				if free.is_empty() {
+					return;
+				}
+				let c = self.prng.pick(&free).clone();
+				let min = self.min_fee(1, 1);
+				let (fee, shift) = if low {
+					if min < 2 {
+						return;
+					}
+					(min - 1 - self.prng.below(min / 2), 0)
+				} else {
+					self.good_fee(1, 1, c.value)
+				};
+				let (cnew, _) = match self.mk_tx(&[c], 1, fee, shift, None, 0) {
+					Some(x) => x,
+					None => return,
+				};
+				let agg = match transaction::aggregate(&[a, cnew.clone()]) {
+					Ok(a) => a,
+					Err(_) => return,
+				};
+				self.submit(Submission {
+					kind,
+					tx: agg,
+					eff: cnew,
+					label: if low { Label::Refuse("low_fee") } else { Label::Valid },
+					stem: false,
+					src,
+					desc: if low {
+						"aggregate of a txpool entry with a fresh LOW-FEE tx".into()
+					} else {
+						"aggregate of a txpool entry with a fresh tx".into()
+					},
+				});
+			}
+		}
+	}
+
+	fn pick_input_for_hostile(&mut self, v: &View) -> Option<Coin> {
+		// mostly a free confirmed coin, sometimes an output of a pooled tx
+		if self.prng.chance(1, 4) {
+			let outs = self.pool_outputs(v, false);
+			if !outs.is_empty() {
+				return Some(self.prng.pick(&outs).clone());
+			}
+		}
+		let free = self.free_coins(v);
+		if free.is_empty() {
+			self.run.count("skip.no_free_coin", 1);
+			None
+		} else {
+			Some(self.prng.pick(&free).clone())
+		}
+	}
+
+	fn op_low_fee(&mut self) {
+		let v = self.view();
+		let c = match self.pick_input_for_hostile(&v) {
+			Some(c) => c,
+			None => return,
+		};
+		let n_out = if self.prng.chance(1, 4) { 2 } else { 1 };
+		let min = self.min_fee(1, n_out);
+		if min < 2 {
+			return;
+		}
+		let (fee, shift, d) = match self.prng.below(4) {
+			0 => (min - 1, 0, "fee = min-1"),
+			1 => ((min / 2).max(1), 0, "fee = min/2"),
+			2 => {
+				let s = self.prng.range(1, 3);
+				((min << s) - 1, s, "fee >= min but shifted fee = min-1")
+			}
+			_ => (1, 0, "fee = 1"),
+		};
+		if let Some((tx, _)) = self.mk_tx(&[c], n_out, fee, shift, None, 0) {
+			let stem = self.rand_stem();
+			let src = self.rand_src();
+			self.submit(Submission {
+				kind: "low_fee",
+				eff: tx.clone(),
+				tx,
+				label: Label::Refuse("low_fee"),
+				stem,
+				src,
+				desc: d.into(),
+			});
+		}
+	}
+
+	fn op_overweight(&mut self) {
+		let v = self.view();
+		let reuse = match &self.overweight {
+			Some((_, coin)) => {
+				v.st.utxo.contains_key(&coin.commit)
+					&& !v.spent.contains(&coin.commit)
+					&& !self.prng.chance(1, 3)
+			}
+			None => false,
+		};
+		if !reuse {
+			if let Some((_, coin)) = self.overweight.take() {
+				self.reserved.remove(&coin.commit);
+			}
+			let free = self.free_coins(&v);
+			if free.is_empty() {
+				self.run.count("skip.no_free_coin", 1);
+				return;
+			}
+			let c = self.prng.pick(&free).clone();
+			let n_out = 11 + self.prng.usize_below(2);
+			let fee = self.min_fee(1, n_out) * (1 + self.prng.below(3));
+			let built = self.mk_tx(&[c.clone()], n_out, fee, 0, None, 0);
+			match built {
+				Some((tx, _)) => {
+					self.reserved.insert(c.commit);
+					self.overweight = Some((tx, c));
+				}
+				None => return,
+			}
+		}
+		let tx = self.overweight.as_ref().unwrap().0.clone();
+		let stem = self.rand_stem();
+		let src = self.rand_src();
+		self.submit(Submission {
+			kind: "overweight",
+			eff: tx.clone(),
+			tx,
+			label: Label::Refuse("overweight"),
+			stem,
+			src,
+			desc: format!("otherwise valid, weight > {}", MAX_TX_W),
+		});
+	}
+
+	fn op_invalid(&mut self) {
+		let v = self.view();
+		let which = self.prng.below(5);
+		let (tx, l, d): (Transaction, &'static str, &'static str) = if which == 0 {
+			(Transaction::empty(), "invalid_empty", "Transaction::empty()")
+		} else {
+			let c = match self.pick_input_for_hostile(&v) {
+				Some(c) => c,
+				None => return,
+			};
+			match which {
+				1 => {
+					let (fee, shift) = self.good_fee(1, 1, c.value);
+					let imb = 1 + self.prng.below(1000);
+					match self.mk_tx(&[c], 1, fee, shift, None, imb) {
+						Some((tx, _)) => (tx, "invalid_unbalanced", "outputs exceed inputs - fee"),
+						None => return,
+					}
+				}
+				2 => {
+					// kernel carries the (valid) signature of another kernel
+					let (fee, shift) = self.good_fee(1, 1, c.value);
+					let spare = self.spare_sig_kernel;
+					match (self.mk_tx(&[c], 1, fee, shift, None, 0), spare) {
+						(Some((tx, _)), Some(spare)) => {
+							let mut k = tx.kernels()[0];
+							if k.excess_sig == spare.excess_sig {
+								return;
+							}
+							k.excess_sig = spare.excess_sig;
+							(tx.replace_kernel(k), "invalid_bad_sig", "kernel signature of another kernel")
+						}
+						_ => return,
+					}
+				}
+				3 => {
+					// signature made over another fee: raise the fee field after signing
+					let (fee, shift) = self.good_fee(1, 1, c.value);
+					match self.mk_tx(&[c], 1, fee, shift, None, 0) {
+						Some((tx, _)) => {
+							let mut k = tx.kernels()[0];
+							k.features = KernelFeatures::Plain {
+								fee: FeeFields::new(shift, fee + 1).unwrap(),
+							};
+							(tx.replace_kernel(k), "invalid_bad_sig", "fee field changed after signing")
+						}
+						None => return,
+					}
+				}
+				_ => {
+					// two outputs with swapped range proofs
+					let (fee, shift) = self.good_fee(1, 2, c.value);
+					match self.mk_tx(&[c], 2, fee, shift, None, 0) {
+						Some((tx, _)) => {
+							let o = tx.outputs();
+							let o0 = Output::new(o[0].features(), o[0].commitment(), o[1].proof());
+							let o1 = Output::new(o[1].features(), o[1].commitment(), o[0].proof());
+							let t = Transaction::new(tx.inputs(), &[o0, o1], tx.kernels())
+								.with_offset(tx.offset.clone());
+							(t, "invalid_bad_proof", "range proofs swapped between outputs")
+						}
+						None => return,
+					}
+				}
+			}
+		};
+		let stem = self.rand_stem();
+		let src = self.rand_src();
+		self.submit(Submission {
+			kind: "invalid",
+			eff: tx.clone(),
+			tx,
+			label: Label::Refuse(l),
+			stem,
+			src,
+			desc: d.into(),
+		});
+	}
+
+	/// Immature coinbase spend / future lock height (and the exact boundaries).
+	fn op_immature(&mut self) {
+		let v = self.view();
+		let mat = global::coinbase_maturity();
+		let young: Vec<Coin> = self
+			.coins
+			.iter()
+			.filter(|c| match v.st.utxo.get(&c.commit) {
+				Some(&i) => {
+					let o = &v.st.outs[i];
+					o.features == OutputFeatures::Coinbase
+						&& v.next_h < o.height + mat
+						&& !v.spent.contains(&c.commit)
+				}
+				None => false,
+			})
+			.cloned()
+			.collect();
+		let stem = self.rand_stem();
+		let src = self.rand_src();
+		if !young.is_empty() && self.prng.chance(1, 2) {
+			let c = self.prng.pick(&young).clone();
+			let (fee, shift) = self.good_fee(1, 1, c.value);
+			if let Some((tx, _)) = self.mk_tx(&[c], 1, fee, shift, None, 0) {
+				self.submit(Submission {
+					kind: "immature",
+					eff: tx.clone(),
+					tx,
+					label: Label::Unmineable,
+					stem,
+					src,
+					desc: "spend of an immature coinbase".into(),
+				});
+			}
+			return;
+		}
+		let free = self.free_coins(&v);
+		if free.is_empty() {
+			return;
+		}
+		let c = self.prng.pick(&free).clone();
+		let at_boundary = self.prng.chance(1, 3);
+		let lock = if at_boundary {
+			v.next_h
+		} else {
+			v.next_h + 1 + self.prng.below(3)
+		};
+		let (fee, shift) = self.good_fee(1, 1, c.value);
+		if let Some((tx, _)) = self.mk_tx(&[c], 1, fee, shift, Some(lock), 0) {
+			self.submit(Submission {
+				kind: "immature",
+				eff: tx.clone(),
+				tx,
+				label: if at_boundary { Label::Valid } else { Label::Unmineable },
+				stem,
+				src,
+				desc: format!("height-locked at {} (next block {})", lock, v.next_h),
+			});
+		}
+	}
+
+	fn op_stem_resubmit(&mut self) {
+		let v = self.view();
+		if v.stempool.is_empty() {
+			self.run.count("skip.stempool_empty", 1);
+			return self.op_valid("valid");
+		}
+		let tx = self.prng.pick(&v.stempool).clone();
+		let src = self.rand_src();
+		self.submit(Submission {
+			kind: "stem_resubmit",
+			eff: tx.clone(),
+			tx,
+			label: Label::Free,
+			stem: true,
+			src,
+			desc: "stem tx seen again while in stempool (=> fluff)".into(),
+		});
+	}
+
+	/// What `dandelion_monitor::process_fluff_phase` does.
+	fn op_fluff(&mut self) {
+		let prepared: Result<Transaction, String> = {
+			let p = self.pool.read();
+			let txs: Vec<Transaction> = p.stempool.all_transactions();
+			if txs.is_empty() {
+				Err("empty".into())
+			} else {
+				match p.chain_head() {
+					Err(e) => Err(eclass(&e)),
+					Ok(header) => match p.txpool.all_transactions_aggregate(None) {
+						Err(e) => Err(eclass(&e)),
+						Ok(txpool_tx) => match p.stempool.validate_raw_txs(
+							&txs,
+							txpool_tx,
+							&header,
+							Weighting::NoLimit,
+						) {
+							Err(e) => Err(eclass(&e)),
+							Ok(f) => match transaction::aggregate(&f) {
+								Err(e) => Err(eclass(&e)),
+								Ok(agg) => match agg.validate(Weighting::AsTransaction) {
+									Err(e) => Err(eclass(&e)),
+									Ok(()) => Ok(agg),
+								},
+							},
+						},
+					},
+				}
+			}
+		};
+		match prepared {
+			Ok(agg) => {
+				let label = match self.admission_clause(&agg) {
+					Some("fee") => Label::Refuse("low_fee"),
+					Some("weight") => Label::Refuse("overweight"),
+					Some(_) => Label::Refuse("invalid_agg"),
+					None => Label::Free,
+				};
+				self.submit(Submission {
+					kind: "fluff",
+					eff: agg.clone(),
+					tx: agg,
+					label,
+					stem: false,
+					src: TxSource::Fluff,
+					desc: "aggregate of the fluffable stempool (dandelion monitor)".into(),
+				});
+			}
+			Err(e) => {
+				if e == "empty" {
+					self.run.count("skip.stempool_empty", 1);
+					// put something into the stempool instead
+					let v = self.view();
+					if let Some((tx, _)) = self.gen_valid(&v) {
+						self.submit(Submission {
+							kind: "valid",
+							eff: tx.clone(),
+							tx,
+							label: Label::Valid,
+							stem: true,
+							src: TxSource::Broadcast,
+							desc: "fresh spend (stem)".into(),
+						});
+					}
+				} else {
+					self.run.count(&format!("fluff_not_prepared.{}", e), 1);
+				}
+			}
+		}
+	}
+
+	/// What `dandelion_monitor::process_expired_entries` does.
+	fn op_expire(&mut self) {
+		let v = self.view();
+		if v.stempool.is_empty() {
+			self.run.count("skip.stempool_empty", 1);
+			return self.op_fluff();
+		}
+		for tx in v.stempool.iter().take(3) {
+			if self.stop {
+				return;
+			}
+			self.submit(Submission {
+				kind: "expire",
+				eff: tx.clone(),
+				tx: tx.clone(),
+				label: Label::Free,
+				stem: false,
+				src: TxSource::EmbargoExpired,
+				desc: "embargo expired: stem entry fluffed individually".into(),
+			});
+		}
+	}
+
+	fn op_mine(&mut self) {
+		let pre = self.pool.read().txpool.size();
+		self.begin_op("mine", String::new());
+		let outcome = self.mine(true);
+		self.end_op("mine", false, pre, &outcome);
+	}
+
+	/// I5. `real`: as mine_block.rs::build_block + process_block. Otherwise a
+	/// dry run (assemble, weigh, reference rules); a failing dry run requests a
+	/// real mine so that the chain itself is the judge.
+	fn mine(&mut self, real: bool) -> String {
+		let head = match self.chain.head_header() {
+			Ok(h) => h,
+			Err(_) => return "no_head".into(),
+		};
+		let pool = self.pool.clone();
+		let txs = match catch(move || pool.read().prepare_mineable_transactions()) {
+			Ok(Ok(t)) => t,
+			Ok(Err(e)) => {
+				self.run.count("mine.prepare_err", 1);
+				self.run
+					.inconclusive(&format!("seq {}: prepare_mineable_transactions Err {:?}", self.seq, e));
+				return format!("prepare_err:{}", eclass(&e));
+			}
+			Err(p) => {
+				let sig = format!("panic;op=prepare_mineable_transactions;at={}", p.location);
+				self.violation(&sig, &format!("panic: {} at {}", p.message, p.location), json!({}));
+				self.stop = true;
+				return "panic".into();
+			}
+		};
+		let fees: u64 = txs.iter().map(|t| tx_fee_shift(t).0).sum();
+		let (out, kern, key) = if real {
+			let k = self.w.key(self.next_key);
+			self.next_key += 1;
+			let (o, kn) = self.w.coinbase(&k, fees);
+			(o, kn, Some(k))
+		} else {
+			if self.dummy_cb.is_none() {
+				let k = self.w.key(0x7fff_0000);
+				self.dummy_cb = Some(self.w.coinbase(&k, 0));
+			}
+			let (o, kn) = self.dummy_cb.clone().unwrap();
+			(o, kn, None)
+		};
+		if !real {
+			self.run.count("i5_dry_runs", 1);
+		}
+		let fail = |h: &mut Self, clause: &str, err: String, txs: &[Transaction]| -> String {
+			if real {
+				let sig = format!("I5;clause={};err={}", clause, err);
+				h.violation(
+					&sig,
+					&format!(
+						"block assembled from prepare_mineable_transactions() failed at `{}`: {}",
+						clause, err
+					),
+					json!({"mineable": txs.iter().map(tx_summary).collect::<Vec<_>>(), "next_height": head.height + 1}),
+				);
+				format!("FAIL:{}:{}", clause, err)
+			} else {
+				h.run.count("i5_dry_run_suspicious", 1);
+				h.want_real_mine();
+				"dry_fail".into()
+			}
+		};
+		let d = 1000 + self.prng.below(500);
+		let mut b = match Block::from_reward(&head, &txs, out, kern, Difficulty::from_num(d)) {
+			Ok(b) => b,
+			Err(e) => return fail(self, "assemble", eclass(&e), &txs),
+		};
+		let bw = weight_iok(b.inputs().len(), b.outputs().len(), b.kernels().len());
+		if bw > MAX_BLOCK_W {
+			return fail(self, "weight", format!("{}", bw), &txs);
+		}
+		self.run.set_max("max_mined_block_weight", bw);
+		let st = self.ledger.state_at(&head.hash());
+		let ref_verdict = st.check_block(&b);
+		if !real {
+			if let Err(e) = ref_verdict {
+				return fail(self, "ref_rules", eclass(&e), &txs);
+			}
+			return "dry_ok".into();
+		}
+		if let Err(e) = b.validate(&head.total_kernel_offset) {
+			return fail(self, "block_validate", eclass(&e), &txs);
+		}
+		b.header.timestamp = head.timestamp + Duration::seconds(60);
+		b.header.pow.proof.edge_bits = global::min_edge_bits();
+		if let Err(e) = self.chain.set_txhashset_roots(&mut b) {
+			return fail(self, "set_txhashset_roots", eclass(&e), &txs);
+		}
+		skip_pow_proof(&mut b.header, &mut self.prng);
+		self.ledger.add(&b);
+		let bh = b.hash();
+		let n_txs = txs.len();
+		match self
+			.chain
+			.process_block(b, Options::SKIP_POW | Options::MINE | self.base_opts)
+		{
+			Ok(Some(_)) => {
+				self.run.count("mined_blocks_accepted", 1);
+				if n_txs > 0 {
+					self.run.count("mined_blocks_accepted_nonempty", 1);
+					self.run.count("mined_txs", n_txs as u64);
+				}
+				if ref_verdict.is_err() {
+					self.run.count("ref_chain_disagree", 1);
+				}
+				let k = key.unwrap();
+				let cb = self.w.coin(grin_core::consensus::reward(fees), &k, true);
+				self.add_coin(cb);
+				self.block_txs.insert(bh, txs);
+				format!("accepted:{}", if n_txs == 0 { "empty" } else if n_txs < 4 { "few" } else { "many" })
+			}
+			Ok(None) => fail(self, "process_block", "NotHead".into(), &txs),
+			Err(e) => fail(self, "process_block", eclass(&e), &txs),
+		}
+	}
+
+	fn want_real_mine(&mut self) {
+		if self.forced_mines_left() {
+			self.fill_remaining = 0;
+			self.trace.push("   (dry-run I5 suspicious: real mine requested)".into());
+			self.run.count("forced_real_mines", 1);
+			self.force_mine = true;
+		}
+	}
+
+	fn forced_mines_left(&mut self) -> bool {
+		if self.forced_mines < 3 {
+			self.forced_mines += 1;
+			true
+		} else {
+			false
+		}
+	}
+
+	/// Can `tx` be put into a block of height `h` on state `st` after the
+	/// already selected transactions (reference rules)?
+	fn applicable(
+		st: &RefState,
+		h: u64,
+		created: &HashSet<Commitment>,
+		spent: &HashSet<Commitment>,
+		tx: &Transaction,
+	) -> bool {
+		if tx_lock_height(tx) > h {
+			return false;
+		}
+		let mat = global::coinbase_maturity();
+		for (c, f) in inputs_vec(&tx.inputs()) {
+			if spent.contains(&c) {
+				return false;
+			}
+			match st.utxo.get(&c) {
+				Some(&i) => {
+					let o = &st.outs[i];
+					if o.features == OutputFeatures::Coinbase && h < o.height + mat {
+						return false;
+					}
+					if let Some(f) = f {
+						if f != o.features {
+							return false;
+						}
+					}
+				}
+				None => {
+					if !created.contains(&c) {
+						return false;
+					}
+				}
+			}
+		}
+		for o in tx.outputs() {
+			let c = o.commitment();
+			if st.utxo.contains_key(&c) || created.contains(&c) {
+				return false;
+			}
+		}
+		true
+	}
+
+	/// Pick a dependency-respecting subset of the candidates (each with its own
+	/// inclusion percentage) that fits one block.
+	fn select_txs(&mut self, st: &RefState, h: u64, cands: &[(Transaction, u64)]) -> Vec<Transaction> {
+		let mut created = HashSet::new();
+		let mut spent = HashSet::new();
+		let mut seen = HashSet::new();
+		let mut sel = vec![];
+		let mut wsum = 0u64;
+		for (tx, pct) in cands {
+			if !seen.insert(tx.hash()) || !self.prng.chance(*pct, 100) {
+				continue;
+			}
+			let w = tx_weight(tx);
+			if wsum + w > MAX_TX_W {
+				continue;
+			}
+			if !Self::applicable(st, h, &created, &spent, tx) {
+				continue;
+			}
+			for (c, _) in inputs_vec(&tx.inputs()) {
+				spent.insert(c);
+			}
+			for o in tx.outputs() {
+				created.insert(o.commitment());
+			}
+			wsum += w;
+			sel.push(tx.clone());
+		}
+		sel
+	}
+
+	/// Fresh transactions (never submitted to the pool) spending confirmed inputs
+	/// that pool entries spend too.
+	fn fresh_conflicts(&mut self, st: &RefState, h: u64, v: &View, n: usize) -> Vec<Transaction> {
+		let mat = global::coinbase_maturity();
+		let mut cands = vec![];
+		for tx in v.txpool.iter().chain(v.stempool.iter()) {
+			for (c, _) in inputs_vec(&tx.inputs()) {
+				if let (Some(&i), Some(coin)) = (st.utxo.get(&c), self.coin(&c)) {
+					let o = &st.outs[i];
+					if o.features != OutputFeatures::Coinbase || h >= o.height + mat {
+						cands.push(coin);
+					}
+				}
+			}
+		}
+		let mut r = vec![];
+		for _ in 0..n {
+			if cands.is_empty() {
+				break;
+			}
+			let i = self.prng.usize_below(cands.len());
+			let c = cands.remove(i);
+			let fee = 1_000_000u64.min(c.value / 2).max(1);
+			if let Some((tx, _)) = self.mk_tx(&[c], 1, fee, 0, None, 0) {
+				r.push(tx);
+			}
+		}
+		r
+	}
+
+	/// Build (reference ledger) and deliver one foreign block on `parent`.
+	/// Returns (block hash, difficulty, head moved to it, was reorg).
+	fn deliver_foreign(
+		&mut self,
+		kind: &'static str,
+		parent: Hash,
+		cands: &[(Transaction, u64)],
+		difficulty: u64,
+		n_fresh: usize,
+	) -> Option<(Hash, bool, bool)> {
+		let st = self.ledger.state_at(&parent);
+		let h = st.height + 1;
+		let sel = self.select_txs(&st, h, cands);
+		let (pre_tx, pre_size): (Vec<Hash>, usize) = {
+			let p = self.pool.read();
+			(p.txpool.entries.iter().map(|e| e.tx.hash()).collect(), p.txpool.size())
+		};
+		let in_pool = sel.iter().filter(|t| pre_tx.contains(&t.hash())).count();
+		self.begin_op(
+			kind,
+			format!(
+				"block h={} on {} with {} txs ({} from txpool, {} fresh candidates) d={}",
+				h,
+				parent,
+				sel.len(),
+				in_pool,
+				n_fresh,
+				difficulty
+			),
+		);
+		let k = self.w.key(self.next_key);
+		self.next_key += 1;
+		let b = match self.ledger.make_block(
+			&self.w,
+			&mut self.prng,
+			&parent,
+			&sel,
+			&k,
+			PowMode::Skip { difficulty },
+			60,
+		) {
+			Ok(b) => b,
+			Err(e) => {
+				self.run.count("harness.make_block_failed", 1);
+				self.end_op("noop", false, pre_size, &format!("harness_make_block:{}", e.len()));
+				return None;
+			}
+		};
+		if let Err(e) = st.check_block(&b) {
+			self.run.count("harness.block_illegal_by_ref", 1);
+			self.end_op("noop", false, pre_size, &format!("harness_illegal:{}", eclass(&e)));
+			return None;
+		}
+		let fees: u64 = sel.iter().map(|t| tx_fee_shift(t).0).sum();
+		let bh = b.hash();
+		let pre_head = self.head_hash();
+		let r = self.chain.process_block(b, Options::SKIP_POW | self.base_opts);
+		let post_head = self.head_hash();
+		match r {
+			Ok(_) => {
+				let cb = self.w.coin(grin_core::consensus::reward(fees), &k, true);
+				self.add_coin(cb);
+				self.block_txs.insert(bh, sel.clone());
+				let moved = post_head == bh;
+				let reorg = moved && pre_head != parent;
+				self.run.count("foreign_blocks_accepted", 1);
+				self.run.count("foreign.pool_txs_included", in_pool as u64);
+				let post_tx: Vec<Hash> = self
+					.pool
+					.read()
+					.txpool
+					.entries
+					.iter()
+					.map(|e| e.tx.hash())
+					.collect();
+				let dropped = pre_tx.iter().filter(|h| !post_tx.contains(h)).count();
+				let returned = post_tx.iter().filter(|h| !pre_tx.contains(h)).count();
+				let class;
+				if reorg {
+					class = kind.to_string();
+					self.run.count("reorgs", 1);
+					if kind == "reorg_lower" {
+						self.run.count("reorgs_to_lower_height", 1);
+					}
+					self.run.count("reorg.txpool_entries_dropped", dropped as u64);
+					self.run.count("reorg.txpool_entries_returned_from_cache", returned as u64);
+				} else if moved {
+					class = "next_block".to_string();
+					self.run.count("next_block.txpool_entries_dropped", dropped as u64);
+					self.run
+						.count("next_block.dropped_by_conflict", dropped.saturating_sub(in_pool) as u64);
+				} else {
+					class = "fork_block".to_string();
+					self.run.count("fork_blocks", 1);
+					if dropped + returned > 0 {
+						self.run.count("fork_block_changed_txpool", 1);
+					}
+				}
+				let outcome = format!(
+					"{}:incl={};drop={};ret={}",
+					class,
+					in_pool.min(3),
+					dropped.min(3),
+					returned.min(3)
+				);
+				self.end_op(&class, false, pre_size, &outcome);
+				Some((bh, moved, reorg))
+			}
+			Err(e) => {
+				// not C14's business, but the run must not silently lose coverage
+				self.run.count("harness.foreign_block_rejected", 1);
+				self.run.inconclusive(&format!(
+					"seq {}: reference-legal foreign block rejected by chain: {:?}",
+					self.seq, e
+				));
+				self.end_op("noop", false, pre_size, &format!("rejected:{}", eclass(&e)));
+				None
+			}
+		}
+	}
+
+	fn op_foreign_block(&mut self) {
+		let v = self.view();
+		let head = self.head_hash();
+		let n = self.prng.usize_below(3);
+		let fresh = self.fresh_conflicts(&v.st.clone(), v.next_h, &v, n);
+		let first = self.prng.chance(1, 2);
+		let pct = *self.prng.pick(&[0u64, 30, 60, 100]);
+		let mut cands: Vec<(Transaction, u64)> = vec![];
+		if first {
+			cands.extend(fresh.iter().cloned().map(|t| (t, 100)));
+		}
+		cands.extend(v.txpool.iter().cloned().map(|t| (t, pct)));
+		cands.extend(v.stempool.iter().cloned().map(|t| (t, pct / 2)));
+		if !first {
+			cands.extend(fresh.iter().cloned().map(|t| (t, 100)));
+		}
+		if self.prng.chance(1, 3) {
+			if let Some((t, _)) = self.gen_valid(&v) {
+				cands.push((t, 100));
+			}
+		}
+		self.run.count("foreign.fresh_conflicting_candidates", fresh.len() as u64);
+		let d = 1000 + self.prng.below(500);
+		self.deliver_foreign("foreign_block", head, &cands, d, fresh.len());
+	}
+
+	fn op_reorg(&mut self, lower: bool) {
+		let kind: &'static str = if lower { "reorg_lower" } else { "reorg" };
+		let tip = self.chain.head().expect("head");
+		let avail = tip.height.saturating_sub(self.setup_height);
+		let kmax = avail.min(3);
+		if (lower && kmax < 2) || kmax < 1 {
+			self.run.count("skip.reorg_too_shallow", 1);
+			return self.op_foreign_block();
+		}
+		let k = if lower {
+			self.prng.range(2, kmax)
+		} else {
+			self.prng.range(1, kmax)
+		} as usize;
+		let m = if lower {
+			self.prng.range(1, k as u64 - 1) as usize
+		} else {
+			k + self.prng.usize_below(2)
+		};
+		let head = tip.last_block_h;
+		let anc = self.ledger.ancestry(&head);
+		let fp = anc[anc.len() - 1 - k];
+		let mut replaced_txs: Vec<Transaction> = vec![];
+		for bh in &anc[anc.len() - k..] {
+			if let Some(t) = self.block_txs.get(bh) {
+				replaced_txs.extend(t.iter().cloned());
+			}
+		}
+		let head_td = tip.total_difficulty.to_num();
+		let mut td = self.ledger.get(&fp).total_difficulty;
+		let trigger = if m > 1 && self.prng.chance(1, 4) {
+			self.prng.usize_below(m - 1)
+		} else {
+			m - 1
+		};
+		let p_replaced = *self.prng.pick(&[0u64, 50, 100]);
+		let p_pool = *self.prng.pick(&[0u64, 30, 70]);
+		let mut parent = fp;
+		for i in 0..m {
+			if self.stop {
+				return;
+			}
+			let v = self.view();
+			let st = self.ledger.state_at(&parent);
+			let n = self.prng.usize_below(2);
+			let fresh = self.fresh_conflicts(&st, st.height + 1, &v, n);
+			let mut cands: Vec<(Transaction, u64)> = vec![];
+			cands.extend(fresh.iter().cloned().map(|t| (t, 100)));
+			cands.extend(replaced_txs.iter().cloned().map(|t| (t, p_replaced)));
+			cands.extend(v.txpool.iter().cloned().map(|t| (t, p_pool)));
+			let cur_head_td = self.chain.head().map(|t| t.total_difficulty.to_num()).unwrap_or(head_td);
+			let d = if i < trigger {
+				1 + self.prng.below(3)
+			} else if i == trigger {
+				cur_head_td.saturating_sub(td) + 1 + self.prng.below(100)
+			} else {
+				1000 + self.prng.below(500)
+			};
+			match self.deliver_foreign(kind, parent, &cands, d, fresh.len()) {
+				Some((bh, _, _)) => {
+					parent = bh;
+					td += d;
+				}
+				None => return,
+			}
+		}
+	}
+
+	fn pick_op(&mut self) -> &'static str {
+		// (kind, weight) per profile
+		let w: &[(&'static str, u64)] = match self.profile {
+			1 => &[
+				("valid", 26), ("dependent", 14), ("chain3", 6), ("conflict", 4), ("duplicate", 3),
+				("agg_pooled_new", 3), ("agg_two_pooled", 2), ("agg_two_new", 3), ("agg_low_remainder", 2),
+				("low_fee", 9), ("overweight", 2), ("invalid", 5), ("immature", 3), ("stem_resubmit", 1),
+				("fluff", 2), ("expire", 1), ("mine", 5), ("foreign_block", 4), ("reorg", 3), ("reorg_lower", 1),
+				("fill", 4),
+			],
+			2 => &[
+				("valid", 14), ("dependent", 24), ("chain3", 14), ("conflict", 4), ("duplicate", 3),
+				("agg_pooled_new", 4), ("agg_two_pooled", 3), ("agg_two_new", 3), ("agg_low_remainder", 2),
+				("low_fee", 6), ("overweight", 1), ("invalid", 4), ("immature", 3), ("stem_resubmit", 1),
+				("fluff", 2), ("expire", 1), ("mine", 6), ("foreign_block", 4), ("reorg", 3), ("reorg_lower", 1),
+				("fill", 3),
+			],
+			3 => &[
+				("valid", 20), ("dependent", 10), ("chain3", 5), ("conflict", 4), ("duplicate", 3),
+				("agg_pooled_new", 3), ("agg_two_pooled", 2), ("agg_two_new", 2), ("agg_low_remainder", 1),
+				("low_fee", 4), ("overweight", 1), ("invalid", 3), ("immature", 5), ("stem_resubmit", 1),
+				("fluff", 2), ("expire", 1), ("mine", 10), ("foreign_block", 8), ("reorg", 10), ("reorg_lower", 4),
+				("fill", 1),
+			],
+			4 => &[
+				("valid", 22), ("dependent", 14), ("chain3", 5), ("conflict", 5), ("duplicate", 5),
+				("agg_pooled_new", 3), ("agg_two_pooled", 2), ("agg_two_new", 3), ("agg_low_remainder", 1),
+				("low_fee", 5), ("overweight", 1), ("invalid", 4), ("immature", 3), ("stem_resubmit", 5),
+				("fluff", 7), ("expire", 4), ("mine", 6), ("foreign_block", 5), ("reorg", 3), ("reorg_lower", 1),
+				("fill", 2),
+			],
+			_ => &[
+				("valid", 22), ("dependent", 12), ("chain3", 5), ("conflict", 5), ("duplicate", 4),
+				("agg_pooled_new", 4), ("agg_two_pooled", 3), ("agg_two_new", 3), ("agg_low_remainder", 2),
+				("low_fee", 6), ("overweight", 2), ("invalid", 5), ("immature", 4), ("stem_resubmit", 2),
+				("fluff", 3), ("expire", 2), ("mine", 8), ("foreign_block", 6), ("reorg", 4), ("reorg_lower", 1),
+				("fill", 2),
+			],
+		};
+		let total: u64 = w.iter().map(|x| x.1).sum();
+		let mut r = self.prng.below(total);
+		for (k, wt) in w {
+			if r < *wt {
+				return k;
+			}
+			r -= wt;
+		}
+		"valid"
+	}
+
+	fn run_ops(&mut self, n_target: usize) {
+		// most sequences switch to a "fluff" epoch so that stem txs stay in the stempool;
+		// the others keep the initial "stem" epoch where (no relay peer) every stem tx is fluffed at once
+		if self.prng.chance(7, 10) {
+			self.net.next_epoch();
+			self.fluff_epoch = true;
+		}
+		self.run.count(
+			if self.fluff_epoch { "sequences.fluff_epoch" } else { "sequences.stem_epoch_no_relay" },
+			1,
+		);
+		while self.n_ops < n_target && !self.stop {
+			if Instant::now() > self.shared.deadline {
+				self.run.count("sequences_truncated_by_deadline", 1);
+				break;
+			}
+			if self.force_mine {
+				self.force_mine = false;
+				self.op_mine();
+				continue;
+			}
+			if self.fill_remaining > 0 {
+				self.fill_remaining -= 1;
+				if self.prng.chance(2, 3) {
+					let v = self.view();
+					if let Some((tx, _)) = self.gen_valid(&v) {
+						let src = self.rand_src();
+						self.submit(Submission {
+							kind: "valid",
+							eff: tx.clone(),
+							tx,
+							label: Label::Valid,
+							stem: false,
+							src,
+							desc: "fresh spend (fill to capacity)".into(),
+						});
+					} else {
+						self.fill_remaining = 0;
+					}
+				} else {
+					self.op_dependent(true);
+				}
+				continue;
+			}
+			match self.pick_op() {
+				"valid" => self.op_valid("valid"),
+				"conflict" => self.op_conflict(),
+				"dependent" => self.op_dependent(false),
+				"chain3" => self.op_chain3(),
+				"duplicate" => self.op_duplicate(),
+				k @ ("agg_pooled_new" | "agg_two_pooled" | "agg_two_new" | "agg_low_remainder") => {
+					self.op_aggregate(k)
+				}
+				"low_fee" => self.op_low_fee(),
+				"overweight" => self.op_overweight(),
+				"invalid" => self.op_invalid(),
+				"immature" => self.op_immature(),
+				"stem_resubmit" => self.op_stem_resubmit(),
+				"fluff" => self.op_fluff(),
+				"expire" => self.op_expire(),
+				"mine" => self.op_mine(),
+				"foreign_block" => self.op_foreign_block(),
+				"reorg" => self.op_reorg(false),
+				"reorg_lower" => self.op_reorg(true),
+				"fill" => {
+					let size = self.pool.read().txpool.size();
+					self.fill_remaining = (self.cfg.max_pool_size + 3).saturating_sub(size).min(16);
+					self.run.count("fill_bursts", 1);
+				}
+				_ => {}
+			}
+		}
+		self.run.count("sequences", 1);
+		self.run.count(&format!("sequences.profile{}", self.profile), 1);
+		self.run.set_max("max_ops_in_a_sequence", self.n_ops as u64);
+	}
+}
+
+fn run_sequence(run: &Run, shared: &Shared, seq: u64, root: &str) {
+	let dir = format!("{}/s{}", root, seq);
+	let _ = std::fs::create_dir_all(&dir);
+	let r = catch(|| {
+		let mut h = match Harness::new(run, shared, seq, &dir) {
+			Ok(h) => h,
+			Err(e) => {
+				run.count("harness.setup_failed", 1);
+				run.inconclusive(&format!("seq {}: setup failed: {}", seq, e));
+				return;
+			}
+		};
+		let n_target = if shared.small {
+			20 + h.prng.usize_below(15)
+		} else {
+			30 + h.prng.usize_below(121)
+		};
+		h.run_ops(n_target);
+	});
+	if let Err(p) = r {
+		// a panic outside the monitored pool calls: harness or chain problem, not a C14 verdict
+		run.count("harness.sequence_panicked", 1);
+		run.inconclusive(&format!(
+			"seq {}: panic outside monitored calls: {} at {}",
+			seq, p.message, p.location
+		));
+	}
+	let _ = std::fs::remove_dir_all(&dir);
+}
+
+fn main() {
+	let run = Run::from_env("C14", "exploration");
+	init_globals(true);
+	let san = run.args.iter().any(|a| a == "--san");
+	let mut only_seq: Option<u64> = None;
+	let mut it = run.args.iter();
+	while let Some(a) = it.next() {
+		if a == "--only-seq" {
+			only_seq = it.next().and_then(|s| s.parse().ok());
+		}
+	}
+	if let Some(p) = &run.replay {
+		if let Ok(s) = std::fs::read_to_string(p) {
+			if let Ok(v) = serde_json::from_str::<Value>(&s) {
+				if let Some(q) = v.pointer("/case/seq").and_then(|x| x.as_u64()) {
+					only_seq = Some(q);
+				}
+			}
+		}
+	}
+	let (budget_s, max_seqs): (u64, u64) = if san {
+		(60, 6)
+	} else {
+		run.tier.pick((72, 600), (640, 6000))
+	};
+	let scratch = Scratch::new("c14");
+	let root = scratch.path.to_string_lossy().to_string();
+	let shared = Shared {
+		deadline: Instant::now() + StdDuration::from_secs(budget_s),
+		next_seq: AtomicU64::new(0),
+		max_seqs,
+		small: san,
+	};
+	let n_threads = std::thread::available_parallelism()
+		.map(|n| n.get())
+		.unwrap_or(4)
+		.min(16);
+
+	run.set_rule(
+		"Each sequence: fresh AutomatedTesting chain (SKIP_POW blocks from the reference ledger's block factory: 5-7 coinbase \
+		 blocks + 5-6 blocks splitting a coinbase into 10 coins), real TransactionPool wired with the real PoolToChainAdapter, \
+		 PoolToNetAdapter (empty Peers) and ChainToPoolAndNetAdapter (chain adapter => reconcile_block / reorg cache run as in the node); \
+		 PoolConfig max_pool_size 8..12 (one profile 50), mineable_max_weight in {60,100,150,250,40000}, accept fee base in {500000,1000,7}. \
+		 30-150 seeded random operations (6 profiles: general, capacity, dependency chains, reorg-heavy, stem-heavy, big pool/small mineable weight): \
+		 add_to_pool of valid / conflicting / dependent / 3-chains (random fee rates, fee shifts) / duplicates / aggregates (pooled+new, two pooled, two new, pooled+low-fee) / \
+		 low-fee (min-1, min/2, shifted) / overweight (11-12 outputs) / invalid (empty, unbalanced, bad signature x2, swapped proofs) / immature (coinbase, lock height; and exact boundaries) \
+		 as stem or fluff, stem re-submission, dandelion-monitor fluff and embargo expiry; mine a block from prepare_mineable_transactions(); foreign blocks with subsets of pool \
+		 txs and fresh conflicting spends; reorgs (depth 1-3, equal/longer fork, and shorter-but-heavier fork) re-including / omitting replaced txs; fill bursts to force eviction. \
+		 After EVERY operation I1-I3 + I4 scan are re-evaluated from scratch (reference ledger replay + aggregate/validate/Chain::validate_tx), I5 by dry-run after 1/4 of the operations \
+		 and by a really mined + processed block in `mine` operations. An evaluation = one executed operation; its signature is \
+		 (previous op kind > op kind, txpool size class {0,1-3,4-7,8+,over capacity}, stem flag, outcome class incl. error variant / eviction / block status); distinct signatures are counted.",
+	);
+	run.assume("Blocks are delivered with Options::SKIP_POW (difficulty chosen by the harness); proof of work is out of scope for C14.");
+	run.assume("p2p::Peers is real but has no connected peers: broadcasts reach nobody, stem relay always fails over to fluff in a stem epoch.");
+	run.assume("Core primitives (Transaction::validate, aggregate, secp256k1) are trusted when evaluating the invariants; UTXO membership is judged by the independent reference ledger and, additionally, by Chain::validate_tx.");
+
+	std::thread::scope(|s| {
+		for _ in 0..n_threads {
+			s.spawn(|| {
+				init_thread(true);
+				loop {
+					if Instant::now() > shared.deadline {
+						break;
+					}
+					let seq = match only_seq {
+						Some(q) => {
+							if shared.next_seq.fetch_add(1, Ordering::SeqCst) > 0 {
+								break;
+							}
+							q
+						}
+						None => {
+							let q = shared.next_seq.fetch_add(1, Ordering::SeqCst);
+							if q >= shared.max_seqs {
+								break;
+							}
+							q
+						}
+					};
+					run_sequence(&run, &shared, seq, &root);
+				}
+			});
+		}
+	});
+
+	let c = |n: &str| run.counter(n);
+	let scale: u64 = if san || only_seq.is_some() { 0 } else { run.tier.pick(1, 4) };
+	run.require("sequences", c("sequences"), 1.max(20 * scale));
+	run.require("invariant_evaluations", c("invariant_evaluations"), 10.max(1500 * scale));
+	run.require("i3_evaluations_nonempty_stempool", c("i3_evaluations_nonempty_stempool"), 100 * scale);
+	for k in KINDS {
+		let min = match *k {
+			"reorg_lower" | "overweight" | "agg_low_remainder" | "stem_resubmit" | "expire" => 5 * scale,
+			_ => 15 * scale,
+		};
+		run.require(&format!("op.{}", k), c(&format!("op.{}", k)), min);
+	}
+	run.require("admitted", c("admitted"), 300 * scale);
+	run.require("admitted_to_stempool", c("admitted_to_stempool"), 20 * scale);
+	run.require("mined_blocks_accepted", c("mined_blocks_accepted"), 1.max(40 * scale) * (scale.min(1)));
+	run.require("mined_blocks_accepted_nonempty", c("mined_blocks_accepted_nonempty"), 25 * scale);
+	run.require("foreign_blocks_accepted", c("foreign_blocks_accepted"), 40 * scale);
+	run.require("reorgs", c("reorgs"), 1.max(10 * scale) * (scale.min(1)));
+	run.require("evictions", c("evictions"), 1.max(10 * scale) * (scale.min(1)));
+	run.require("refused.low_fee", c("refused.low_fee"), 20 * scale);
+	run.require("refused.overweight", c("refused.overweight"), 5 * scale);
+	run.require("refused.invalid", c("refused.invalid"), 20 * scale);
+	run.require("i5_dry_runs", c("i5_dry_runs"), 200 * scale);
+	drop(scratch);
+	run.finish();
+}
